@@ -467,5 +467,87 @@ class SingleFile(Part):
         return res
 
 
+class RepeatedRuns(Part):
+    name = "repeated_runs_one_process"
+    desc = "histories of runs in one process: same output path after the output was removed / from another cwd / into the previous output"
+
+    def __init__(self, tier, seed):
+        self.tier, self.seed = tier, seed
+
+    def cases(self):
+        trees = [["a.cfg", "sub/x.cfg"], ELEMENTS, ["sub/deep/y.cfg", "b c.cfg"]]
+        hist = ["rerun", "rmtree-then-rerun", "rm-subdir-then-rerun", "relative-out-other-cwd", "other-tree-same-out"]
+        return [{"tree": t, "hist": h, "feat": f, "entry": e} for t in trees for h in hist for f in FEATURES
+                for e in ("anonymize_files", "main")]
+
+    def _run(self, ind, outd, feat, entry):
+        from netconan.anonymize_files import anonymize_files
+        from netconan.netconan import main
+
+        with seams.capture_logs(40) as recs, seams.capture_stdio():
+            with seams.walk_order(order_key("sorted")):
+                if entry == "main":
+                    argv = ["-a", "-s", "saltForTest", "--preserve-host-bits", "0", "-i", ind, "-o", outd]
+                    if feat == "pwd+ip":
+                        argv.append("-p")
+                    main(argv)
+                else:
+                    anonymize_files(ind, outd, preserve_suffix_v4=0, preserve_suffix_v6=0, **kw_for(feat))
+        return [r for r in recs if r[0] in ("ERROR", "CRITICAL")]
+
+    def run(self, case):
+        res = Res()
+        base = seams.scratch_dir("c16r")
+        cwd = os.getcwd()
+        try:
+            tree, hist, feat, entry = case["tree"], case["hist"], case["feat"], case["entry"]
+            ind = os.path.join(base, "in")
+            seams.write_tree(ind, {e: (None if e.endswith("/") else CONTENT[e]) for e in tree})
+            os.chdir(base)
+            outd = os.path.join(base, "out")
+            ref_root = os.path.join(base, "ref")
+            self._run(ind, os.path.join(ref_root, "out"), feat, entry)
+            want = seams.read_tree(os.path.join(ref_root, "out"))
+            errs1 = self._run(ind, outd if hist != "relative-out-other-cwd" else "out", feat, entry)
+            if hist == "rmtree-then-rerun":
+                shutil.rmtree(outd)
+            elif hist == "rm-subdir-then-rerun":
+                shutil.rmtree(os.path.join(outd, "sub"), ignore_errors=True)
+            elif hist == "relative-out-other-cwd":
+                os.makedirs(os.path.join(base, "job2"))
+                os.chdir(os.path.join(base, "job2"))
+            elif hist == "other-tree-same-out":
+                ind2 = os.path.join(base, "in2")
+                seams.write_tree(ind2, {"sub/x.cfg": "peer 10.1.2.3\n", "zz/new.cfg": "peer 138.7.6.5\n"})
+                self._run(ind2, outd, feat, entry)
+            errs2 = self._run(ind, outd if hist != "relative-out-other-cwd" else "out", feat, entry)
+            got_dir = outd if hist != "relative-out-other-cwd" else os.path.join(base, "job2", "out")
+            got = seams.read_tree(got_dir) if os.path.isdir(got_dir) else {}
+            res.evals += 1
+            res.nt(json_key(case))
+            res.out(sorted(got))
+            for p, data in want.items():
+                if p.endswith("/"):
+                    continue
+                if got.get(p) != data:
+                    res.violation("second-run-in-one-process-differs|" + hist,
+                                  "tree %r features %s entry %s, history %s: %r is %r, a first run gives %r (errors: %r)" % (
+                                      tree, feat, entry, hist, p, got.get(p), data, [e[1][:80] for e in errs2][:2]), case)
+                    break
+            if errs1 or errs2:
+                res.violation("healthy-file-reported-as-failed|" + hist, "%r" % ([e[1][:100] for e in errs1 + errs2][:2],), case)
+            res.samples.append(case)
+        finally:
+            os.chdir(cwd)
+            shutil.rmtree(base, ignore_errors=True)
+        return res
+
+
+def json_key(d):
+    import json
+
+    return json.dumps(d, sort_keys=True)
+
+
 def parts(tier, seed):
-    return [TreesPart(tier, seed), EntryPoints(tier, seed), SingleFile(tier, seed)]
+    return [TreesPart(tier, seed), EntryPoints(tier, seed), SingleFile(tier, seed), RepeatedRuns(tier, seed)]
